@@ -98,6 +98,9 @@ pub struct Ctx {
     pub nmax: u64,
     /// (n, content, kind) -> signatures
     pub sigs: HashMap<(u64, String, String), Sigs>,
+    /// (n, content) -> the canonical holder commitment transaction and its output witness scripts
+    /// (what the raw / phase-1 entry point `validate_holder_commitment_tx` is given)
+    pub raw: HashMap<(u64, String), (bitcoin::Transaction, Vec<Vec<u8>>)>,
 }
 
 impl Ctx {
@@ -111,7 +114,7 @@ impl Ctx {
 
     /// `precompute = false`: the caller installs the (deterministic) signature table itself
     pub fn with_fx_opts(fx: NodeFx, phase: &str, nmax: u64, precompute: bool) -> Ctx {
-        let mut ctx = Ctx { fx, id: ChannelId::new(&[0u8; 32]), cc: None, nmax, sigs: HashMap::new() };
+        let mut ctx = Ctx { fx, id: ChannelId::new(&[0u8; 32]), cc: None, nmax, sigs: HashMap::new(), raw: HashMap::new() };
         let probe = NodeFx { node: ctx.fx.node.clone(), store: ctx.fx.store.clone(), clock: ctx.fx.clock.clone(),
                              policy: None, network: ctx.fx.network, cloud: ctx.fx.cloud.clone() };
         let phase = phase.to_string();
@@ -172,6 +175,44 @@ impl Ctx {
                 );
                 let (cs, hs) = counterparty_sign_holder_commitment(&node_ctx, cc, &mut tctx);
                 good.insert(name.to_string(), Sigs { commit: cs, htlc: hs });
+                // the same commitment as a raw transaction with its witness scripts
+                let tx = tctx.tx.as_ref().unwrap().trust().built_transaction().transaction.clone();
+                let wits = self
+                    .fx
+                    .node
+                    .with_channel(&self.id, |chan| {
+                        use lightning_signer::util::test_utils::build_tx_scripts;
+                        let channel_parameters = chan.make_channel_parameters();
+                        let parameters = channel_parameters.as_holder_broadcastable();
+                        use lightning::ln::chan_utils::TxCreationKeys;
+                        use lightning::sign::ChannelSigner;
+                        use lightning_signer::channel::ChannelBase;
+                        let point = chan.get_per_commitment_point(n)?;
+                        let hpk = chan.keys.pubkeys().clone();
+                        let cpk = chan.setup.counterparty_points.clone();
+                        let keys = TxCreationKeys::derive_new(
+                            &bitcoin::secp256k1::Secp256k1::new(),
+                            &point,
+                            &hpk.delayed_payment_basepoint,
+                            &hpk.htlc_basepoint,
+                            &cpk.revocation_basepoint,
+                            &cpk.htlc_basepoint,
+                        );
+                        let htlcs = lightning_signer::channel::Channel::htlcs_info2_to_oic(&c.offered, &c.received);
+                        let scripts = build_tx_scripts(
+                            &keys,
+                            tctx.to_broadcaster,
+                            tctx.to_countersignatory,
+                            &htlcs,
+                            &parameters,
+                            &hpk.funding_pubkey,
+                            &cpk.funding_pubkey,
+                        )
+                        .expect("scripts");
+                        Ok(scripts.iter().map(|s| s.as_bytes().to_vec()).collect::<Vec<_>>())
+                    })
+                    .expect("witness scripts");
+                self.raw.insert((n, name.to_string()), (tx, wits));
             }
             for name in CONTENT_NAMES {
                 let g = &good[name];
@@ -309,6 +350,23 @@ impl Ctx {
                     )
                 })
                 .map(|_| json!({}))
+            }
+            // the raw-transaction (phase 1) entry point: what ValidateCommitmentTx of the protocol carries
+            "ValidateHolderRaw" => {
+                let cname = r["c"].as_str().unwrap();
+                let kind = r["sig"].as_str().unwrap();
+                let c = content(cname);
+                let s = self.sigs.get(&(n, cname.to_string(), kind.to_string()))
+                    .or_else(|| self.sigs.get(&(0, cname.to_string(), "good".to_string())));
+                let raw = self.raw.get(&(n, cname.to_string())).or_else(|| self.raw.get(&(0, cname.to_string())));
+                match (s, raw) {
+                    (Some(s), Some((tx, wits))) => node
+                        .with_channel(id, |chan| {
+                            chan.validate_holder_commitment_tx(tx, wits, n, 0, c.offered.clone(), c.received.clone(), &s.commit, &s.htlc)
+                        })
+                        .map(|_| json!({})),
+                    _ => Err(Status::invalid_argument("harness: channel not ready")),
+                }
             }
             "Activate" => node
                 .with_channel(id, |chan| chan.activate_initial_commitment())
